@@ -10,6 +10,47 @@ REPO_SRC = os.environ.get("VERIF_REPO_SRC", "/repo/src")
 PYTHON = "/venv/bin/python"
 
 
+LIBRARY_LOGGERS = ("utils", "distributions", "eventlist", "pubsub", "interfaces", "model",
+                   "parameters", "simevent", "simulator", "statistics", "streams", "units")
+_log_sink = None
+
+
+def library_log_level(level):
+    """Configuration knob: the level of the library's module loggers (default
+    CRITICAL; a user tracing a problem sets DEBUG).  Their handlers write to a
+    sink, so output never mixes with the check's own."""
+    import logging
+    import os as _os
+    global _log_sink
+    if _log_sink is None:
+        _log_sink = open(_os.devnull, "w")
+    for name in LIBRARY_LOGGERS:
+        lg = logging.getLogger(name)
+        for h in lg.handlers:
+            if getattr(h, "stream", None) is not _log_sink and hasattr(h, "setStream"):
+                h.setStream(_log_sink)
+        if not lg.handlers:
+            lg.addHandler(logging.StreamHandler(_log_sink))
+        for h in lg.handlers:
+            # the handler lock is a real lock: formatting a record may call __str__
+            # of library objects (pre-emption points under the baton scheduler), and
+            # a thread parked while holding a real lock would block the other one
+            # for ever.  The sink needs no lock.
+            h.lock = None
+        lg.propagate = False          # (records are formatted and emitted, into the sink)
+        lg.setLevel(level)
+    # the workers switch logging off globally (noise); a case that sets a level
+    # below CRITICAL switches it on for its duration
+    logging.disable(logging.NOTSET if level < 50 else logging.CRITICAL)
+
+
+def py_flags():
+    """Interpreter flags of this process that child interpreters must share
+    (-O strips asserts and sets __debug__ = False)."""
+    import sys as _sys
+    return ["-O"] if _sys.flags.optimize else []
+
+
 def use_repo():
     """Make `import pydsol` resolve to the current working tree of the repo
     (or to the scratch copy named by VERIF_REPO_SRC)."""
